@@ -13,6 +13,11 @@ UPDATE urls
 SET status = 'FRESH', timestamp = strftime('%s', 'now')
 WHERE id = ?;
 
+-- name: ResetClaimedURLs :exec
+UPDATE urls
+SET status = 'FRESH', timestamp = strftime('%s', 'now')
+WHERE status = 'CLAIMED';
+
 -- name: AddURL :exec
 INSERT INTO urls (id, value, via, hops)
 VALUES (?, ?, ?, ?);
